@@ -1,5 +1,13 @@
 (* C17, step level: the step predicates of Conn/C17_Pred.v hold of EVERY step of the model
-   (every state, every event), and therefore along every trace. *)
+   (every state, every event), and therefore along every trace.
+     c17_reset_ok            no precondition                      c17_reset_ok_step / _trace
+     c17_fin_number_step_ok  no precondition                      c17_fin_number_step_ok_step / _trace
+     c17_synack_ok           under syn_pre (an invariant)         c17_synack_ok_step / _trace
+     c17_fin_after_data_ok   FALSE as written (c17_fin_after_data_ok_refuted); holds unless the channel is
+                             closed and the poll reports ErrSend  c17_fin_after_data_ok_step_gen / _step_inv,
+                             _guarded_trace, _noerr_trace, _ok_open_trace
+     c17_reset_trace_ok      along every trace from vsock_new     c17_reset_trace_ok_trace
+   Guards defined here (boolean, on the step): c17_seg_bounds, c17_not_err_send, c17_fin_after_data_guard. *)
 From Utp Require Import Base.Prelude Wire.SeqNr Wire.Header Wire.Header_Proofs Rtt.Rtte Mtu.SegSizes
   Rx.Rx Tx.Ring Tx.Segments Conn.Recovery Conn.Msg Conn.VSockRec Conn.VSock Conn.VSockRun Conn.VObs
   Conn.VSock_Lemmas Conn.VSock_LemmasTx Conn.VSock_LemmasFin Conn.C17_Pred Conn.C17_Proofs Conn.C17_StepLemmas.
